@@ -285,6 +285,12 @@ func runC07(c *Ctx) {
 		e := chkenc(c, b, ver, r.Intn(6))
 		s := gStr(e, "ret")
 		chkdec(c, s)
+		if k%40 == 0 {
+			for _, w := range wsWraps(s) {
+				chkdec(c, w)
+				b58dec(c, w)
+			}
+		}
 		if len(s) > 0 { // substitute one character
 			p := r.Intn(len(s))
 			chkdec(c, s[:p]+string(b58alpha[r.Intn(58)])+s[p+1:])
@@ -341,6 +347,14 @@ func runC07(c *Ctx) {
 		}
 		if k%6 == 0 {
 			b32Lookalikes(c, s)
+		}
+		if k%25 == 0 {
+			for _, w := range wsWraps(s) {
+				b32dec(c, w)
+			}
+			// a checksum that is valid for the EMPTY human-readable part (the separator is the first character)
+			b32dec(c, refBech32Const("", data, 1))
+			b32dec(c, strings.ToUpper(refBech32Const("", data, 1)))
 		}
 		switch k % 8 {
 		case 0:
